@@ -51,8 +51,8 @@ def domain_of(run, v):
         if v.kind == 'B':
             return Domain(n, lambda i: BoolV(T.bat(v.term, i)))
     if isinstance(v, MatV):
-        mrow = F('mrow', Mat, Int, RSeq)
-        return Domain(mrows(v.term), lambda i: SeqV('R', mrow(v.term, i)))
+        from .libcalls import mk_mrow
+        return Domain(mrows(v.term), lambda i: SeqV('R', mk_mrow(v.term, i)))
     if isinstance(v, Ref):
         o = run.deref(v)
         if isinstance(o, ListO):
@@ -63,6 +63,10 @@ def domain_of(run, v):
             return Domain(T.alen(o.keys), lambda i: ArmV(T.aat(o.keys, i)), arm_seq=o.keys)
         if isinstance(o, SymListO):
             return Domain(o.length, lambda i: unbox(run, o.elems[i], o.ekind))
+        if isinstance(o, NestedListO):
+            d = Domain(o.n, lambda i: run.st.alloc(SymListO(o.lens[i], o.elems[i], o.ekind)))
+            d.canon = v
+            return d
     if isinstance(v, Lazy):
         if v.kind == 'range':
             lo, hi = v.payload
@@ -676,7 +680,39 @@ def _collect(run, dom, normal, nguards, gen, ik, n, merged):
         run.st.assume(T.rlen(r) == n)
         run.st.assume(z3.ForAll([j], z3.Implies(z3.And(j >= 0, j < n), T.rat(r, j) == v.real()), patterns=[T.rat(r, j)]))
         return SeqV('R', r, True)
+    if isinstance(v, Ref) and isinstance(run.deref(v), SymListO):
+        o = run.deref(v)        # a list of lists (results of the chunks of a parallel map)
+        return run.st.alloc(NestedListO(n, z3.Lambda([j], o.length), z3.Lambda([j], o.elems), o.ekind))
     return run.st.alloc(SymListO(n, z3.Lambda([j], box(run, v)), ekind_of(run, v)))
+
+
+def flatten(run, nl, where=''):
+    """list(chain.from_iterable(L)) for a list of lists L.  Offsets off(i) = len_0 + .. + len_{i-1}; the element at
+    position p lives in chunk ck(p) at position p - off(ck(p)).  With a telescope hint S from the spec
+    (len_i == S[i+1] - S[i], an obligation) the offsets are S[i] - S[0] (rule: telescoping sum, induction on i)."""
+    off = fresh_fn('off', Int, Int)
+    ck = fresh_fn('chunk', Int, Int)
+    i = bound('i', Int)
+    p = bound('p', Int)
+    st = run.st
+    st.assume(off(0) == 0)
+    st.assume(z3.ForAll([i], z3.Implies(z3.And(0 <= i, i < nl.n), z3.And(nl.lens[i] >= 0, off(i + 1) == off(i) + nl.lens[i])),
+                        patterns=[off(i + 1)]))
+    hint = run.eng.telescope_hint(run)
+    if hint is not None:
+        S = hint.term
+        from .lib import iat
+        g = z3.ForAll([i], z3.Implies(z3.And(0 <= i, i < nl.n), nl.lens[i] == iat(S, i + 1) - iat(S, i)))
+        run.emit('flatten.telescope', g, where)
+        st.assume(g)
+        st.assume(z3.ForAll([i], z3.Implies(z3.And(0 <= i, i <= nl.n), off(i) == iat(S, i) - iat(S, 0)), patterns=[off(i)]))
+        run.note('rule:telescoping-sum')
+    # every position below the total length lies in exactly one chunk (offsets are non-decreasing from 0 to off(n))
+    st.assume(z3.ForAll([p], z3.Implies(z3.And(0 <= p, p < off(nl.n)),
+                                        z3.And(0 <= ck(p), ck(p) < nl.n, off(ck(p)) <= p, p < off(ck(p) + 1))),
+                        patterns=[ck(p)]))
+    st.assume(off(nl.n) >= 0)
+    return run.st.alloc(SymListO(off(nl.n), z3.Lambda([p], nl.elems[ck(p)][p - off(ck(p))]), nl.ekind))
 
 
 def _closed_form(v, itf, ik, body_consts):
